@@ -279,6 +279,14 @@ class NumInterp(Interp):
             raise Unsupported(f'{n.value.id}.{n.attr} not in the whitelist')
         if isinstance(n, (ast.ListComp, ast.GeneratorExp)):
             return self._comp(n, 0, [])
+        if isinstance(n, ast.Dict):
+            out = {}
+            for k, v in zip(n.keys, n.values):
+                if k is None:
+                    out.update(self.ev(v))
+                else:
+                    out[self.ev(k)] = self.ev(v)
+            return out
         if isinstance(n, ast.DictComp):
             pairs = self._comp(ast.ListComp(elt=ast.Tuple(elts=[n.key, n.value], ctx=ast.Load()), generators=n.generators), 0, [])
             return dict(pairs)
